@@ -4,6 +4,7 @@ TLA+ decides; this driver renders the abstract cases, calls pyg_base and encodes
 import json
 from harness.x_pool import pmap
 from harness import x_curve
+from harness.core import Machinery
 
 
 # ---------------------------------------------------------------------------------------------------
@@ -21,12 +22,8 @@ def _nknots(case):
 def _curve_variants(case, k):
     """the spellings under which one TLC case is replayed (chosen by the case number only)"""
     n = _nknots(case)
-    vs = [(k % 4, None), ((k + 1) % 4, None)]
-    if case['a']['k'] not in ('s', 'f') or case['x']['k'] != 'none':
-        pass
     perm = list(range(n))[::-1] if k % 2 else list(range(1, n)) + [0]
-    vs.append(((k + 2) % 4, perm))
-    return vs
+    return [(k % 4, None), ((k + 2) % 4, perm)]
 
 
 def _curve_replay(chunk):
@@ -49,7 +46,8 @@ def curve_form(case):
 
 
 def curve_s2c(ctx, cases, limit=None):
-    items = list(enumerate(cases))
+    items = [(k, c) for k, c in enumerate(cases) if c.pop('exact')]
+    ctx.extra['curve_cases_outside_float_exact_domain'] = ctx.extra.get('curve_cases_outside_float_exact_domain', 0) + len(cases) - len(items)
     if limit is not None and len(items) > limit:
         items = sorted(ctx.rng.sample(items, limit), key=lambda kc: kc[0])
     res = pmap(_curve_replay, items, chunk=400)
@@ -71,11 +69,184 @@ def curve_s2c(ctx, cases, limit=None):
             ctx.sample({'curve_s2c_case': case})
 
 
+# ---- C2S: random curves whose chords binary floating point computes exactly ------------------------------
+def _odd(n):
+    n = abs(n)
+    while n and n % 2 == 0:
+        n //= 2
+    return n or 1
+
+
+def _lcm(a, b):
+    import math
+    return a * b // math.gcd(a, b)
+
+
+def _c(p, q=1):
+    from fractions import Fraction
+    f = Fraction(p, q)
+    return ["f", [f.numerator, f.denominator]]
+
+
+NANC = ["nan", 0]
+
+
+def _nan_mask(rng, n):
+    r = rng.random()
+    p = 0.0 if r < 0.3 else 0.3 if r < 0.8 else 0.8
+    return [rng.random() < p for _ in range(n)]
+
+
+def rand_curves(rng, n, m, fill, shared):
+    """m curves over n knots each (shared: the same knots for all): (knot cells, value cells, knots as Fractions).
+    Drawn inside the domain FloatExact of spec/Curve.tla BY CONSTRUCTION:
+      fill nan / bound  (slope form): the slope of the chord between ANY two knots is a dyadic rational - either integer
+          knots and values on a grid scaled by the odd parts of all knot differences, or dyadic knots and values on a
+          parabola with dyadic coefficients; NaN values anywhere;
+      fill extrapolate  (weight form): the difference between the two knots of any chord that can be used is a power of two -
+          either up to three equally spaced knots (NaN values anywhere), or gaps that are powers of two and no NaN value."""
+    from fractions import Fraction
+    def knots():
+        if fill == 'extrapolate':
+            if n <= 3 and rng.random() < 0.5:
+                g = Fraction(rng.choice([1, 2, 4, 8]), rng.choice([1, 4]))
+                x0 = Fraction(rng.randint(-16, 16), 2)
+                return [x0 + i * g for i in range(n)], 'equi'
+            x0 = Fraction(rng.randint(-16, 16), 2)
+            xs = [x0]
+            for _ in range(n - 1):
+                xs.append(xs[-1] + Fraction(rng.choice([1, 2, 4, 8]), rng.choice([1, 2, 4])))
+            return xs, 'pow2'
+        if rng.random() < 0.6:
+            while True:
+                pos = sorted(rng.sample(range(-8, 17), n))
+                L = 1
+                for i in range(n):
+                    for j in range(i + 1, n):
+                        L = _lcm(L, _odd(pos[j] - pos[i]))
+                if L <= 1000:
+                    break
+            scale = Fraction(1, rng.choice([4, 2, 1, 1]))
+            return [Fraction(q) * scale for q in pos], ('grid', L)
+        return sorted(rng.sample([Fraction(k, 4) for k in range(-32, 33)], n)), 'parabola'
+    def values(xs, how):
+        if how == 'equi':
+            ys, mask = [Fraction(rng.randint(-160, 160), 4) for _ in xs], _nan_mask(rng, n)
+        elif how == 'pow2':
+            ys, mask = [Fraction(rng.randint(-160, 160), 4) for _ in xs], [False] * n
+        elif how == 'parabola':
+            al, be, ga = (Fraction(rng.randint(-4, 4), 2) for _ in range(3))
+            ys, mask = [al * v * v + be * v + ga for v in xs], _nan_mask(rng, n)
+        else:
+            ys, mask = [Fraction(how[1] * rng.randint(-8, 8), rng.choice([1, 2, 4])) for _ in xs], _nan_mask(rng, n)
+        return [NANC if mk else _c(v.numerator, v.denominator) for v, mk in zip(ys, mask)]
+    out = []
+    xs, how = knots()
+    for i in range(m):
+        if i and not shared:
+            xs, how = knots()
+        out.append(([_c(v.numerator, v.denominator) for v in xs], values(xs, how), xs))
+    return out
+
+
+def rand_point(rng, xs):
+    from fractions import Fraction
+    r = rng.random()
+    if r < 0.05:
+        return NANC
+    if r < 0.3:
+        v = rng.choice(xs)
+    else:
+        lo, hi = int(xs[0]) - 6, int(xs[-1]) + 6
+        v = Fraction(rng.randint(lo * 8, hi * 8), 8)
+    return _c(v.numerator, v.denominator)
+
+
+def rand_curve_case(rng):
+    n = rng.choice([2, 2, 3, 4, 5, 7])
+    fill = rng.choice(['nan', 'extrapolate', 'bound'])
+    form = rng.choice(['c/v', 'v/v', 'm/v', 'c/m', 'v/m', 'vrow/m', 'm/m', 'c/mx', 'vrow/mx', 'm/mx',
+                       'c/f', 'v/f', 'vrow/f', 'm/f', 's/f', 'f/f', 'c/fx', 's/fx', 'c/ff', 'v/ff'])
+    af, yf = form.split('/')
+    L = rng.choice([0, 1, 2, 3, 3, 5, 8])
+    if yf == 'v':
+        x, y, xs = rand_curves(rng, n, 1, fill, True)[0]
+        pts = lambda k: [rand_point(rng, xs) for _ in range(k)]
+        a = {'k': 'c', 'v': pts(1)[0]} if af == 'c' else {'k': 'v', 'v': pts(L)} if af == 'v' else {'k': 'm', 'v': [pts(max(L, 1)) for _ in range(rng.choice([1, 2, 3]))]}
+        return {'a': a, 'y': {'k': 'v', 'v': y}, 'x': {'k': 'v', 'v': x}, 'fill': fill}
+    m = rng.choice([1, 2, 3, 5])
+    perrow_x = yf in ('mx', 'ff')
+    curves = rand_curves(rng, n, m, fill, not perrow_x)
+    allx = sorted(set(v for c in curves for v in c[2]))
+    pt = lambda: rand_point(rng, allx)
+    times = sorted(rng.sample(range(1, 41), m))
+    if af == 'c':
+        a = {'k': 'c', 'v': pt()}
+    elif af == 'v':
+        a = {'k': 'v', 'v': [pt() for _ in range(L)]}
+    elif af == 'vrow':
+        a = {'k': 'v', 'v': [pt() for _ in range(m)]}
+    elif af == 'm':
+        a = {'k': 'm', 'v': [[pt() for _ in range(max(L, 1))] for _ in range(m)]}
+    else:                           # dated points: some dates of the values, some others
+        k = rng.choice([1, 2, 3, 4])
+        at = sorted(set(rng.sample(times, min(len(times), rng.choice([1, 2, 5]))) + rng.sample(range(1, 45), k - 1)))
+        if af == 's':
+            a = {'k': 's', 't': at, 'v': [pt() for _ in at]}
+        else:
+            w = rng.choice([1, 2, 3])
+            a = {'k': 'f', 't': at, 'c': ['p', 'q', 'r'][:w], 'v': [[pt() for _ in range(w)] for _ in at]}
+    yrows = [c[1] for c in curves]
+    if yf in ('m', 'mx'):
+        y = {'k': 'm', 'v': yrows}
+        x = {'k': 'm', 'v': [c[0] for c in curves]} if perrow_x else {'k': 'v', 'v': curves[0][0]}
+    else:
+        if yf == 'f':               # the labels of the frame are the knots
+            y = {'k': 'f', 't': times, 'c': curves[0][0], 'v': yrows}
+            x = {'k': 'none'}
+        else:                       # knots given: the labels are something else
+            y = {'k': 'f', 't': times, 'c': [_c(100 + j) for j in range(n)], 'v': yrows}
+            x = {'k': 'f', 't': times, 'c': [], 'v': [c[0] for c in curves]} if perrow_x else {'k': 'v', 'v': curves[0][0]}
+    return {'a': a, 'y': y, 'x': x, 'fill': fill, 'form': form}
+
+
+def _curve_observe(chunk):
+    return [x_curve.observe(case, sp, perm) for case, sp, perm in chunk]
+
+
+def curve_c2s(ctx, n):
+    jobs = []
+    for i in range(n):
+        case = rand_curve_case(ctx.rng)
+        sp = ctx.rng.randrange(4)
+        perm = None
+        if ctx.rng.random() < 0.3:
+            k = _nknots(case)
+            perm = ctx.rng.sample(range(k), k)
+        jobs.append((case, sp, perm))
+    obs = pmap(_curve_observe, jobs, chunk=250)
+    ctx.evals += len(obs)
+    bad = ctx.validate('Trace_Curve', obs)
+    for i, clause in bad:
+        o = obs[i - 1]
+        if clause in ('malformed_observation', 'outside_float_exact_domain'):
+            raise Machinery('Trace_Curve: line %d is %s: %s' % (i, clause, json.dumps(o)[:600]))
+        ctx.violation(clause, {'op': 'interpolate', 'form': curve_form(o), 'fill': o['fill'], 'unsorted': not o['sorted'], 'spelling': o['sp'],
+                               'a': o['a'], 'y': o['y'], 'x': o['x']},
+                      {'observed': o['out'], 'after': [o['a_after'], o['y_after'], o['x_after']]})
+    for o in obs:
+        if '"f"' in json.dumps(o['out'].get('v', '')):
+            ctx.note(('curve-c2s', json.dumps([o['a'], o['y'], o['x'], o['fill']])))
+    ctx.sample({'curve_c2s_observation': obs[len(obs) // 2]})
+    return obs
+
+
 def run(ctx):
     q = ctx.quick
     r = ctx.mc('MC_Curve', 'MC_Curve_quick.cfg' if q else 'MC_Curve_thorough.cfg', coverage=False)
     if r.generated != r.distinct or r.distinct % 2:
-        raise __import__('harness.core').core.Machinery('MC_Curve: not every case was evaluated (%d generated, %d distinct)' % (r.generated, r.distinct))
+        raise Machinery('MC_Curve: not every case was evaluated (%d generated, %d distinct)' % (r.generated, r.distinct))
     curve_s2c(ctx, ctx.generate('MC_Curve', 'MC_Curve_gen_pt.cfg' if q else 'MC_Curve_gen_pt_wide.cfg'))
-    curve_s2c(ctx, ctx.generate('MC_Curve', 'MC_Curve_gen_forms.cfg' if q else 'MC_Curve_gen_forms_wide.cfg'), limit=6000 if q else None)
+    curve_s2c(ctx, ctx.generate('MC_Curve', 'MC_Curve_gen_forms.cfg' if q else 'MC_Curve_gen_forms_wide.cfg'), limit=3000 if q else None)
+    curve_c2s(ctx, 3000 if q else 40000)
     ctx.exhaustive = False
